@@ -56,12 +56,13 @@ ClassAccepts(cls, v) ==
     [] cls = "word"  -> Len(v) > 0 /\ AllIn(v, Word)
     [] cls = "any"   -> Len(v) > 0
     [] cls = "lower" -> Len(v) > 0 /\ AllIn(v, Lowers)      \* harness-defined interceptor
+    [] cls = "even"  -> Len(v) > 0 /\ Len(v) % 2 = 0        \* harness-defined, NOT monotone: a longer text may be accepted after a shorter one was refused
     [] OTHER -> FALSE
 
 \* The regexp vocabulary whose meaning the specification defines.  Rules
 \* outside it are never interpreted (the generators do not use them for
 \* dispatch; whether they compile is a logged input).
-ReVocab == {"\\d+", "\\d*", "\\d", "[0-9]+", "[a-z]+", "\\w+", ".+", ".*", "[^/]+"}
+ReVocab == {"\\d+", "\\d*", "\\d", "[0-9]+", "[a-z]+", "\\w+", ".+", ".*", "[^/]+", "\\d+|new"}
 ReAccepts(rule, v) ==
   CASE rule = "\\d+"    -> Len(v) > 0 /\ AllIn(v, Digits)
     [] rule = "[0-9]+"  -> Len(v) > 0 /\ AllIn(v, Digits)
@@ -72,6 +73,7 @@ ReAccepts(rule, v) ==
     [] rule = ".+"      -> Len(v) > 0 /\ ~Contains(v, "\n")
     [] rule = ".*"      -> ~Contains(v, "\n")
     [] rule = "[^/]+"   -> Len(v) > 0 /\ ~Contains(v, "/")
+    [] rule = "\\d+|new" -> (Len(v) > 0 /\ AllIn(v, Digits)) \/ v = "new"      \* top-level alternation
     [] OTHER -> FALSE
 
 Accepts(I, a, v) ==
